@@ -74,7 +74,10 @@ pub fn compare(w: &World) -> Vec<Finding> {
                         ks.into_iter().filter(|k| ax.get(k) != ay.get(k)).collect()
                     };
                     let is_dyngroup = srv::dump_classes(x).iter().any(|c| c == "dyngroup");
-                    let sig = if w.skewed && kind(x) != "conflict" && kind(y) != "conflict" {
+                    let sig = if kind(x) == "conflict" || kind(y) == "conflict" {
+                        // the statement demands identical conflict entries; one class for all of them
+                        "c08/conflict-entry-content-differs".to_string()
+                    } else if w.skewed {
                         // one cause class: see known_findings.json
                         "c08/entries-diverge-under-clock-skew".to_string()
                     } else if kind(x) != kind(y) {
